@@ -45,3 +45,40 @@ func TestDevTiming(t *testing.T) {
 		}
 	}
 }
+
+func TestDevOne(t *testing.T) {
+	c := rapid.Custom(genBurst).Example(0)
+	for seed := 0; seed < 200; seed++ {
+		c = rapid.Custom(genBurst).Example(seed)
+		t0 := time.Now()
+		o := run(c)
+		if d := time.Since(t0); d > 2*time.Second {
+			fmt.Println(d, c.key())
+			fmt.Println("  incon", o.inconclusive, "live", o.liveness, "aid", o.aidExpired, "leak", o.leak)
+			for i, st := range o.w.subs {
+				fmt.Printf("  sub %d returned=%v err=%v cancel=%v done=%v acts=%v %s\n", i, st.returned, st.err, st.cancelIssued, st.cancelDone, st.handlerActs, o.w.summary(i))
+			}
+			for _, uc := range o.w.conns {
+				fmt.Printf("  conn %d tuple=%d acked=%v closed=%v dropped=%v ids=%v\n", uc.idx, uc.tuple, uc.acked, uc.closed, uc.dropped, uc.ids)
+			}
+		}
+	}
+}
+
+func TestDevAid(t *testing.T) {
+	n := 0
+	for seed := 0; seed < 1500 && n < 6; seed++ {
+		c := rapid.Custom(genStepped).Example(seed)
+		o := run(c)
+		if len(o.aidExpired) > 0 {
+			n++
+			fmt.Println(o.aidExpired, c.key())
+			for i, st := range o.w.subs {
+				fmt.Printf("  sub %d returned=%v err=%v cancel=%v done=%v stop=%v acts=%v blocked=%v %s\n", i, st.returned, st.err, st.cancelIssued, st.cancelDone, st.stopSeen, st.handlerActs, st.blockedNow, o.w.summary(i))
+			}
+			for _, uc := range o.w.conns {
+				fmt.Printf("  conn %d tuple=%d acked=%v closed=%v dropped=%v ids=%v\n", uc.idx, uc.tuple, uc.acked, uc.closed, uc.dropped, uc.ids)
+			}
+		}
+	}
+}
